@@ -67,10 +67,11 @@ def touch(st, k):
     return False
 
 
-def havoc_with_frame(st, mods, allow_fresh=True):
-    """havoc the heap maps named in `mods`; index-restricted entries keep everything else (at previously allocated refs)"""
+def havoc_with_frame(st, mods, allow_fresh=True, alloc_base=None):
+    """havoc the heap maps named in `mods`; index-restricted entries keep everything else (at previously allocated refs;
+    `alloc_base` = allocation map relative to which `previously` is meant, default: now)"""
     mods = norm_modifies(mods)
-    alloc0 = st.alloc_arr()
+    alloc0 = alloc_base if alloc_base is not None else st.alloc_arr()
     for key, idxs in mods.items():
         for k in expand_keys(st, key):
             if not touch(st, k):
@@ -317,7 +318,8 @@ class LoopSpec:
     """inv(st, ctx) -> [(label, formula)];  ctx = {'i': index term (for-loops), 'n': length term, 'entry': state at loop entry, 'at': element view}
        modifies: heap keys (or (key, idxs)) the body may change; locals are found syntactically."""
 
-    def __init__(self, inv, modifies=(), decreases=None, header=None, name="loop", on_exit=None, on_iter=None, hide_after=False, keep_locals=()):
+    def __init__(self, inv, modifies=(), decreases=None, header=None, name="loop", on_exit=None, on_iter=None, hide_after=False, keep_locals=(), frame_since_entry=False):
+        self.frame_since_entry = frame_since_entry    # index-restricted modifies are meant relative to the objects that existed at FUNCTION entry
         self.inv, self.modifies, self.decreases, self.header, self.name = inv, modifies, decreases, header, name
         self.on_exit = on_exit        # on_exit(ex, st, ctx): ghost code / cut at loop exit (may oblige + assume)
         self.on_iter = on_iter        # on_iter(ex, st, ctx): ghost code at the start of an iteration
@@ -406,7 +408,8 @@ class LoopSpec:
             s1.oblige(f"inv-init:{label}", f, "inv-init")
         h = s1.copy()
         mods = self.modifies(entry.peek(), ctx) if callable(self.modifies) else self.modifies
-        havoc_with_frame(h, mods)
+        base = ctx["fn_entry"].alloc_arr() if (self.frame_since_entry and ctx.get("fn_entry") is not None) else None
+        havoc_with_frame(h, mods, alloc_base=base)
         self._havoc_locals(ex, s.body, h)
         for label, f in self.inv(h.peek(), ctx):
             h.assume(f)
@@ -415,7 +418,7 @@ class LoopSpec:
             hb = hs.copy(); hb.assume(t)
             if feasible(hb.pc):
                 dec0 = self.decreases(hb.peek(), ctx) if self.decreases else None
-                body_heap0 = dict(hb.heap); body_alloc0 = hb.alloc_arr()
+                body_heap0 = dict(hb.heap); body_alloc0 = base if base is not None else hb.alloc_arr()
                 if self.on_iter:
                     self.on_iter(ex, hb, ctx)
                 for s2, kind, val in ex.run(s.body, hb, d):
